@@ -17,6 +17,12 @@ impl RBig {
         ensures Self::ZERO.0.numerator.v() == 0 && Self::ZERO.0.denominator.v() == 1
     { RBig(Repr { numerator: IBig { _p: 0 }, denominator: UBig { _p: 0 } }) }
 }
+impl RBig {
+    /// rational/src/rbig.rs `pub const fn is_int(&self) -> bool { self.0.denominator.is_one() }`.  NOT called by the unchanged
+    /// function under contract; present so that a changed function calling it is judged by the contract.  TRUSTED.
+    #[verifier::external_body]
+    pub fn is_int(&self) -> (r: bool) ensures r == (self.0.denominator.v() == 1) { unimplemented!() }
+}
 /// derive(Clone) for RBig / Repr: a field-wise copy keeps the value.  TRUSTED.
 impl Clone for RBig {
     #[verifier::external_body]
